@@ -145,3 +145,5 @@ Definition sample_len (z : list bool) : nat :=
   let n := length z in
   let prog := if existsb negb z then 2 * n else n in
   if existsb (fun b => b) z then prog + n else prog.
+(* embed.py ExpFeatures.weights / jacobian: ValueError unless self.d == len(params) *)
+Definition weights_guard {A} (d : nat) (th : list A) : bool := Nat.eqb d (length th).
